@@ -32,7 +32,7 @@ job('tree.db64.make_leaf', ['C01', 'C08', 'C10'], 'u_db', 'proofs/tree/leafmk.c'
 for kind in range(5):
     n = CLSN.get(kind, 4)
     roots = {'REMOVE_INTERNAL': D64 + r'remove_internal\(', 'NODE_FIND': node_rx(n) + r'find_child\(std::byte\)', 'SURV_FIND': node_rx(4) + r'find_child\(std::byte\)'}
-    job('tree.db64.remove.k%d' % kind, ['C01', 'C08', 'C10', 'C16'] if kind <= 1 else [], 'u_db', 'proofs/tree/remove.c', tier=('quick' if kind <= 1 else 'off'), defines=['KIND=%d' % kind, 'POL=DB64', 'SURV=1'], roots=roots, stubs=ADT,
+    job('tree.db64.remove.k%d' % kind, ['C01', 'C08', 'C10', 'C16'] if kind <= 2 else [], 'u_db', 'proofs/tree/remove.c', tier=('quick' if kind <= 2 else 'off'), defines=['KIND=%d' % kind, 'POL=DB64', 'SURV=1'], roots=roots, stubs=ADT,
         cut=['REMOVE_INTERNAL/while_2ebody'], cfgs=CFG_TREE, thorough_cfgs=ALL_CFGS, unwind=UNW[kind], unwindset_raw=SPEC_LOOPS, floor=20, timeout=1800, mem_gb=20, objbits=14, memsafe=False,
         under_contract=['db<uint64_t>::remove_internal (step at node kind %d)' % kind, 'impl_helpers::remove_or_choose_subtree', 'basic_inode::remove', 'shrinking ctor of the next smaller class', 'basic_inode_4::leave_last_child', 'key_prefix::prepend', 'db_leaf_deleter / db_inode_deleter', 'db statistics updates'],
         trusted=['definitional unfolding of the abstract map M', 'node_ptr as an abstract data type'])
